@@ -312,14 +312,21 @@ def meanG {γ : Type} (cell : γ → List γ → Except Err γ) : List γ → Li
         | .error e => .error e
         | .ok r => .ok (c :: r)
 
-def mean1 (self : V1 α) (others : List (V1 α)) (n : α) : Except Err (V1 α) :=
-  meanG (fun v hs => .ok (meanElem v hs n)) self others
-def mean2 (self : V2 α) (others : List (V2 α)) (n : α) : Except Err (V2 α) :=
-  meanG (fun r rs => mean1 r rs n) self others
-def mean3 (self : V3 α) (others : List (V3 α)) (n : α) : Except Err (V3 α) :=
-  meanG (fun m ms => mean2 m ms n) self others
-def mean4 (self : V4 α) (others : List (V4 α)) (n : α) : Except Err (V4 α) :=
-  meanG (fun t ts => mean3 t ts n) self others
+/-- n-ary element-wise combination at each rank: position `i…` of `self` with the same position of
+    every other operand — one copy per rank, as in the Rust code (`mean_inplace`, optimizer updates) -/
+def nzip1 (f : α → List α → α) (self : V1 α) (others : List (V1 α)) : Except Err (V1 α) :=
+  meanG (fun v hs => .ok (f v hs)) self others
+def nzip2 (f : α → List α → α) (self : V2 α) (others : List (V2 α)) : Except Err (V2 α) :=
+  meanG (fun r rs => nzip1 f r rs) self others
+def nzip3 (f : α → List α → α) (self : V3 α) (others : List (V3 α)) : Except Err (V3 α) :=
+  meanG (fun m ms => nzip2 f m ms) self others
+def nzip4 (f : α → List α → α) (self : V4 α) (others : List (V4 α)) : Except Err (V4 α) :=
+  meanG (fun t ts => nzip3 f t ts) self others
+
+def mean1 (self : V1 α) (others : List (V1 α)) (n : α) : Except Err (V1 α) := nzip1 (fun v hs => meanElem v hs n) self others
+def mean2 (self : V2 α) (others : List (V2 α)) (n : α) : Except Err (V2 α) := nzip2 (fun v hs => meanElem v hs n) self others
+def mean3 (self : V3 α) (others : List (V3 α)) (n : α) : Except Err (V3 α) := nzip3 (fun v hs => meanElem v hs n) self others
+def mean4 (self : V4 α) (others : List (V4 α)) (n : α) : Except Err (V4 α) := nzip4 (fun v hs => meanElem v hs n) self others
 
 def asSingle (o : Tensor α) : Except Err (V1 α) := match o.data with | .single x => .ok x | _ => .error .reject
 def asDouble (o : Tensor α) : Except Err (V2 α) := match o.data with | .double x => .ok x | _ => .error .reject
@@ -361,6 +368,30 @@ def mean (self : Tensor α) (others : List (Tensor α)) : Except Err (Tensor α)
   | [] => .error .reject
   | o :: os =>
     if (o :: os).all (fun t => t.shape == self.shape) then meanCore self (o :: os) else .error .shape
+
+/-- n-ary element-wise combination of tensors of the same data kind (no shape validation: the
+    optimizer code matches on the data kinds only and indexes by position) -/
+def nzip (f : α → List α → α) (self : Tensor α) (others : List (Tensor α)) : Except Err (Tensor α) :=
+  match self.data with
+  | .single d =>
+    match L.mapM' asSingle others with
+    | .error e => .error e
+    | .ok os => match nzip1 f d os with
+      | .ok r => .ok ⟨self.shape, .single r⟩
+      | .error e => .error e
+  | .double d =>
+    match L.mapM' asDouble others with
+    | .error e => .error e
+    | .ok os => match nzip2 f d os with
+      | .ok r => .ok ⟨self.shape, .double r⟩
+      | .error e => .error e
+  | .triple d =>
+    match L.mapM' asTriple others with
+    | .error e => .error e
+    | .ok os => match nzip3 f d os with
+      | .ok r => .ok ⟨self.shape, .triple r⟩
+      | .error e => .error e
+  | .quadruple _ => .error .reject
 
 /-- `Tensor::product` (outer product); the recorded shape reads `data[0]` -/
 def product (a b : Tensor α) : Except Err (Tensor α) :=
